@@ -51,6 +51,12 @@ pub enum Cmd {
     OpRestore(u16),
     AtOpLog(u16),
     AtOpMutate(u16),
+    /// `jj --at-op <op> new`: moves this workspace's @ on a sibling operation.
+    AtOpNew(u16),
+    /// `jj --at-op <parent of the head operation> new @--`.
+    AtOpPrevNew,
+    /// `jj --at-op <op> describe <rev>`.
+    AtOpDescribeRev(u16, u16),
     IgnoreWcNew,
     IgnoreWcDescribe,
     WorkspaceAdd,
@@ -75,6 +81,9 @@ pub enum Cmd {
 pub enum Step {
     Edit { ws: u8, edit: Edit },
     Cmd { ws: u8, cmd: Cmd },
+    /// Composite: make workspace `ws` stale (its working-copy commit is moved or rewritten
+    /// behind its back), edit files there, then recover with `workspace update-stale`.
+    StaleThenRecover { ws: u8, how: u8, edits: Vec<Edit> },
 }
 
 #[derive(Debug, Clone, Serialize, Deserialize)]
@@ -101,6 +110,8 @@ pub fn cmd_strategy() -> impl Strategy<Value = Cmd> {
         2 => any::<u16>().prop_map(Cmd::OpRestore),
         1 => any::<u16>().prop_map(Cmd::AtOpLog),
         1 => any::<u16>().prop_map(Cmd::AtOpMutate),
+        1 => any::<u16>().prop_map(Cmd::AtOpNew),
+        1 => (any::<u16>(), any::<u16>()).prop_map(|(o, r)| Cmd::AtOpDescribeRev(o, r)),
         1 => Just(Cmd::IgnoreWcNew),
         1 => Just(Cmd::IgnoreWcDescribe),
         2 => Just(Cmd::WorkspaceAdd),
@@ -119,8 +130,10 @@ pub fn cmd_strategy() -> impl Strategy<Value = Cmd> {
 
 fn step_strategy() -> impl Strategy<Value = Step> {
     prop_oneof![
-        5 => (0u8..2, edit()).prop_map(|(ws, edit)| Step::Edit { ws, edit }),
-        4 => (0u8..2, cmd_strategy()).prop_map(|(ws, cmd)| Step::Cmd { ws, cmd }),
+        10 => (0u8..2, edit()).prop_map(|(ws, edit)| Step::Edit { ws, edit }),
+        8 => (0u8..2, cmd_strategy()).prop_map(|(ws, cmd)| Step::Cmd { ws, cmd }),
+        1 => (0u8..2, 0u8..6, prop::collection::vec(edit(), 1..3))
+            .prop_map(|(ws, how, edits)| Step::StaleThenRecover { ws, how, edits }),
     ]
 }
 
@@ -176,6 +189,18 @@ impl World {
         }
     }
 
+    /// Parent of the current head operation (the head itself if it cannot be determined).
+    pub fn prev_op(&self) -> String {
+        let heads = crate::engine::cli::op_head_ids(&self.repo_dir);
+        let Some(head) = heads.first() else { return "@".into() };
+        let parent = loader_for(&self.repo_dir).ok().and_then(|loader| {
+            let id = jj_lib::op_store::OperationId::try_from_hex(head)?;
+            let op = loader.op_store().read_operation(&id).block_on().ok()?;
+            op.parents.first().map(|p| jj_lib::object_id::ObjectId::hex(p))
+        });
+        parent.unwrap_or_else(|| head.clone())
+    }
+
     pub fn op(&self, raw: u16) -> String {
         self.known_ops[pick(raw, self.known_ops.len())].clone()
     }
@@ -229,6 +254,17 @@ impl World {
                 "describe".into(),
                 "-m".into(),
                 format!("at-op {step_no}"),
+            ],
+            Cmd::AtOpNew(o) => vec!["--at-op".into(), self.op(*o), "new".into(), "@-".into()],
+            Cmd::AtOpPrevNew => vec!["--at-op".into(), self.prev_op(), "new".into(), "@--".into()],
+            Cmd::AtOpDescribeRev(o, r) => vec![
+                "--at-op".into(),
+                self.op(*o),
+                "describe".into(),
+                "-m".into(),
+                format!("at-op-rev {step_no}"),
+                "-r".into(),
+                rev(*r, other),
             ],
             Cmd::IgnoreWcNew => s(&["--ignore-working-copy", "new"]),
             Cmd::IgnoreWcDescribe => vec![
@@ -342,8 +378,50 @@ fn check(case: &Case) -> CheckResult {
     let mut world = World::new("c40-")?;
     let mut nontrivial = false;
     let mut classes: BTreeSet<&'static str> = BTreeSet::new();
-    for (step_no, step) in case.steps.iter().enumerate() {
+    // Expand composite steps into primitives.
+    let mut steps: Vec<Step> = vec![];
+    for step in &case.steps {
         match step {
+            Step::StaleThenRecover { ws, how, edits } => {
+                match how {
+                    // the repo's idea of this workspace's @ moves without touching the disk
+                    0 => steps.push(Step::Cmd { ws: *ws, cmd: Cmd::IgnoreWcNew }),
+                    // the other workspace rewrites this workspace's @ (needs two workspaces)
+                    1 => {
+                        steps.push(Step::Cmd { ws: 0, cmd: Cmd::WorkspaceAdd });
+                        // REVS[8] is "{ws}@": describe the other workspace's working-copy commit
+                        steps.push(Step::Cmd { ws: 1 - (*ws).min(1), cmd: Cmd::Describe(8 * 6554 + 100) });
+                    }
+                    2 => steps.push(Step::Cmd { ws: *ws, cmd: Cmd::IgnoreWcDescribe }),
+                    // a command at an older operation moves / rewrites this workspace's @ on a
+                    // sibling operation (divergent op heads), right after an ordinary command
+                    3 | 4 => {
+                        // two commits with different content so that @-- has another tree
+                        steps.push(Step::Edit { ws: *ws, edit: Edit::Write(0, 9000) });
+                        steps.push(Step::Cmd { ws: *ws, cmd: Cmd::Commit });
+                        steps.push(Step::Edit { ws: *ws, edit: Edit::Write(0, 18000) });
+                        steps.push(Step::Cmd { ws: *ws, cmd: Cmd::Commit });
+                        // an ordinary command that leaves @ alone (REVS[1] = "@-") ...
+                        steps.push(Step::Cmd { ws: *ws, cmd: Cmd::BookmarkSet(6554 + 100) });
+                        // ... then, at the operation before it, move @
+                        steps.push(Step::Cmd { ws: *ws, cmd: Cmd::AtOpPrevNew });
+                    }
+                    _ => {
+                        steps.push(Step::Cmd { ws: *ws, cmd: Cmd::Commit });
+                        steps.push(Step::Cmd { ws: *ws, cmd: Cmd::AtOpDescribeRev(64000, 6554 + 100) });
+                    }
+                }
+                for e in edits {
+                    steps.push(Step::Edit { ws: *ws, edit: e.clone() });
+                }
+                steps.push(Step::Cmd { ws: *ws, cmd: Cmd::UpdateStale });
+            }
+            other => steps.push(other.clone()),
+        }
+    }
+    for (step_no, step) in steps.iter().enumerate() {
+        match step {
+            Step::StaleThenRecover { .. } => unreachable!(),
             Step::Edit { ws, edit } => {
                 let idx = world.ws_index(*ws);
                 apply_edit(&world.ws_dirs[idx], edit);
@@ -357,6 +435,7 @@ fn check(case: &Case) -> CheckResult {
                 let ws_dir = world.ws_dirs[idx].clone();
                 let ws_name = world.ws_names[idx];
                 let before = read_disk(&ws_dir);
+                let op_heads_before = crate::engine::cli::op_head_ids(&world.repo_dir);
                 let out = world.run(idx, &args);
                 if out.signal.is_some() {
                     return Err(Violation::new(format!(
@@ -380,6 +459,28 @@ fn check(case: &Case) -> CheckResult {
                         .filter(|(p, e)| after.get(*p) != Some(*e))
                         .map(|(p, _)| p)
                         .collect();
+                    // Known finding: the workspace had been forgotten (no working-copy commit in
+                    // the view the command started from), so nothing could be snapshotted, and a
+                    // restoring command brought the workspace back and overwrote the files.
+                    let forgotten_before = match op_heads_before.as_slice() {
+                        [head] => crate::engine::cli::loader_for(&world.repo_dir)
+                            .and_then(|loader| crate::engine::cli::load_at_op(&loader, head))
+                            .map(|repo| {
+                                !crate::engine::clihist::view_state(&repo).wc.contains_key(ws_name)
+                            })
+                            .unwrap_or(false),
+                        _ => false,
+                    };
+                    if forgotten_before {
+                        return Err(Violation::known(
+                            "C40-forgotten-workspace-edits-lost-on-restore",
+                            format!(
+                                "step {step_no}: `jj {}` in the forgotten workspace {ws_name} re-created the \
+                                 workspace and overwrote files edited after `workspace forget` (paths {changed:?})",
+                                args.join(" ")
+                            ),
+                        ));
+                    }
                     return Err(Violation::new(format!(
                         "step {step_no}: `jj {}` in workspace {ws_name} changed the working copy (paths {changed:?} \
                          differ) but no stored operation records the disk state from before the command as \
@@ -401,7 +502,7 @@ fn check(case: &Case) -> CheckResult {
                     Cmd::OpRestore(_) | Cmd::Undo | Cmd::Redo => {
                         classes.insert("undo/op-restore-changed-disk");
                     }
-                    Cmd::AtOpLog(_) | Cmd::AtOpMutate(_) => {
+                    Cmd::AtOpLog(_) | Cmd::AtOpMutate(_) | Cmd::AtOpNew(_) | Cmd::AtOpPrevNew | Cmd::AtOpDescribeRev(..) => {
                         classes.insert("at-op-changed-disk");
                     }
                     _ => {}
